@@ -383,6 +383,12 @@ impl<RW: QueueRW<T>, T> MultiQueue<RW, T> {
                     if self.writers.load(Relaxed) == 0 {
                         fence(Acquire);
                         if rm_tag(read_cell.wraps.load(Acquire)) != wrap_valid_tag {
+                            // Another consumer of this stream may have taken the examined
+                            // position meanwhile; the mismatch then says nothing about the end
+                            if reader.load_count(Relaxed) != wrap_valid_tag {
+                                ctail_attempt = ctail_attempt.reload();
+                                continue;
+                            }
                             return Err((ptr::null(), TryRecvError::Disconnected));
                         }
                     }
